@@ -86,7 +86,7 @@ def judge_candidates(ctx, rp, got, want, spec):
             ctx.sample({"grammar": rp["grammar"], "words": rp["words"], "prefix": rp["prefix"], "candidates": want}, limit=6)
         return
     norm = lambda x: None if x == "N" else x
-    if spec["lenient_word"] is not None and got == norm(spec["lenient_word"]):
+    if (spec["lenient_word"] is not None and got == norm(spec["lenient_word"])) or spec["lenient_ambiguous"]:
         ctx.violation("unfinished-word-accepted", dict(rp, what="a word that stops in the middle of a within-word expression is read as complete"))
         return
     if spec["lenient_last"] is not None and got == norm(spec["lenient_last"]):
@@ -105,13 +105,22 @@ def judge_calls(ctx, rp, pg, log, got, want, spec):
         ctx.nontriv((rp["grammar"], tuple(rp["words"]), rp["prefix"]))
     ctx.count(f"calls:{min(len(calls), 4)}")
     extra = calls - spec["allowed"]
+    if extra and spec["lenient_ambiguous"]:
+        # C01's recorded finding makes the reading of an unfinished word depend on table order: the point bash
+        # continues from, and hence the calls due, are not determined by the grammar
+        ctx.count("calls-not-judged:unfinished-word-read-several-ways")
+        return
     if extra:
         c = sorted(extra)[0]
         known_cmd = any(c[0] == a[0] for a in spec["allowed"])
         kind = "wrong-arguments" if known_cmd else "command-run-where-not-expected"
         ctx.violation(kind, dict(rp, what=f"the script ran {c[0]!r} with arguments ({c[1]!r}, {c[2]!r}); the grammar allows {sorted(spec['allowed'])}"))
         return
-    if got == want and want is not None:
+    if got == want and want is not None and (spec["lenient_word"] is not None or spec["lenient_ambiguous"]):
+        # C01's recorded finding (a word stopping inside a within-word expression is read as complete) sends bash to
+        # another point that happens to offer the same candidates: which calls are due there is not decided here
+        ctx.count("required-calls-not-judged:unfinished-word-path")
+    elif got == want and want is not None:
         missing = spec["required"] - calls
         if missing:
             c = sorted(missing)[0]
@@ -119,7 +128,7 @@ def judge_calls(ctx, rp, pg, log, got, want, spec):
             return
     if got != want:
         norm = lambda x: None if x == "N" else x
-        if spec["lenient_word"] is not None and got == norm(spec["lenient_word"]):
+        if (spec["lenient_word"] is not None and got == norm(spec["lenient_word"])) or spec["lenient_ambiguous"]:
             return   # C01's recorded finding (unfinished word), not about commands
         if spec["lenient_last"] is not None and got == norm(spec["lenient_last"]):
             ctx.violation("unmatched-last-word-ignored-at-command-point", dict(rp, what="the last complete word equals no candidate of the expected command, yet the line is not rejected"))
